@@ -86,6 +86,13 @@ mod scripting;
 mod shell;
 mod signals;
 
+#[cfg(feature = "cicada_verif")]
+mod completers;
+#[cfg(feature = "cicada_verif")]
+mod highlight;
+#[cfg(feature = "cicada_verif")]
+pub mod verif_hooks;
+
 /// Represents an error calling `exec`.
 pub use crate::types::CommandResult;
 pub use crate::types::LineInfo;
